@@ -26,6 +26,8 @@ class Script:
 
     def __init__(self, expect: int, picks: list[int], batch_cuts: list[int], settings_at: int, settings_val: int,
                  rst_stream: int, ping_at: int, warm: bool, fcut: int = 0) -> None:
+        self.eager = False
+        self.eager_sids: list[int] = []
         self.fcut = fcut  # > 0: everything is sent at once, but arrives as two reads, the first one ending after frame #fcut
         self.expect = expect
         self.picks = picks
@@ -47,6 +49,12 @@ class Script:
             return
         self.srv = srv
         if self.warm and sid == 1:
+            srv.respond(sid)
+            return
+        if self.eager and self.arrived:
+            # every request after the first one is answered at once - while its sender has not even run again since
+            # its write, and while the first caller is the connection's reader
+            self.eager_sids.append(sid)
             srv.respond(sid)
             return
         if self.built:
@@ -139,8 +147,8 @@ class Script:
        for adv in (1, 2) for cold in (False, True)]
     + [{"S": 3, "mode": "order3", "_pre": f"sv == 0 and rst == 0 and ping == 0 and b0 == 0 and p0 == {a} and aband == 0 and d0 == 0 and c0 == 0"} for a in range(3)]
     + [{"S": 3, "mode": "settings3", "_pre": "rst == 0 and ping == 0 and b0 == 0 and p1 == 0 and p2 == 0 and p3 == 0 and p4 == 0 and p5 == 0 and aband == 0 and d0 == 0 and c0 == 0"}]
-    + [{"S": 2, "mode": "settings-cut", "_pre": "fc > 0 and fc <= 6 and sv == 3 and sa <= 4 and rst == 0 and ping == 0 and b0 == 0 and p2 == 0 and p3 == 0 and p4 == 0 and p5 == 0 and aband == 0 and d0 == 0 and c0 == 0"}, {"S": 2, "mode": "abandon", "_pre": "sv == 0 and rst == 0 and ping == 0 and aband > 0 and b0 in (1, 2, 3) and p2 == 0 and p3 == 0 and p4 == 0 and p5 == 0 and d0 == 0 and c0 == 0"}],
-    thorough=[{"S": 2, "mode": "settings-cut", "_pre": "fc > 0 and fc <= 6 and sv == 3 and sa <= 4 and rst == 0 and ping == 0 and b0 == 0 and p2 == 0 and p3 == 0 and p4 == 0 and p5 == 0 and aband == 0 and d0 == 0 and c0 == 0"}, {"S": 2, "mode": "abandon", "_pre": "sv == 0 and rst == 0 and ping == 0 and aband > 0 and b0 in (1, 2, 3) and p2 == 0 and p3 == 0 and p4 == 0 and p5 == 0 and d0 == 0 and c0 == 0"},
+    + [{"S": 2, "mode": "settings-cut", "_pre": "fc > 0 and fc <= 6 and sv == 3 and sa <= 4 and rst == 0 and ping == 0 and b0 == 0 and p2 == 0 and p3 == 0 and p4 == 0 and p5 == 0 and aband == 0 and d0 == 0 and c0 == 0"}, {"S": 2, "mode": "abandon", "_pre": "sv == 0 and rst == 0 and ping == 0 and aband > 0 and b0 in (1, 2, 3) and p2 == 0 and p3 == 0 and p4 == 0 and p5 == 0 and d0 == 0 and c0 == 0"}, {"S": 2, "mode": "eager", "_pre": "sv == 0 and rst == 0 and ping == 0 and aband == 0 and b0 == 0 and p0 == 0 and p1 == 0 and p2 == 0 and p3 == 0 and p4 == 0 and p5 == 0 and d0 <= 12"}],
+    thorough=[{"S": 2, "mode": "eager", "_pre": "sv == 0 and rst == 0 and ping == 0 and aband == 0 and b0 == 0 and p0 == 0 and p1 == 0 and p2 == 0 and p3 == 0 and p4 == 0 and p5 == 0 and d0 <= 12"}, {"S": 3, "mode": "eager", "_pre": "sv == 0 and rst == 0 and ping == 0 and aband == 0 and b0 == 0 and p0 == 0 and p1 == 0 and p2 == 0 and p3 == 0 and p4 == 0 and p5 == 0 and d0 <= 20"}, {"S": 2, "mode": "settings-cut", "_pre": "fc > 0 and fc <= 6 and sv == 3 and sa <= 4 and rst == 0 and ping == 0 and b0 == 0 and p2 == 0 and p3 == 0 and p4 == 0 and p5 == 0 and aband == 0 and d0 == 0 and c0 == 0"}, {"S": 2, "mode": "abandon", "_pre": "sv == 0 and rst == 0 and ping == 0 and aband > 0 and b0 in (1, 2, 3) and p2 == 0 and p3 == 0 and p4 == 0 and p5 == 0 and d0 == 0 and c0 == 0"},
               {"S": 3, "mode": "settings-cut", "_pre": "fc > 0 and sv == 3 and sa <= 6 and rst == 0 and ping == 0 and b0 == 0 and p3 == 0 and p4 == 0 and p5 == 0 and aband == 0 and d0 == 0 and c0 == 0"}]
     + [{"S": 3, "mode": "all3", "_timeout": 900,
                "_pre": f"p0 == {a} and p1 == {b} and ping == 0 and rst == {r} and d0 == 0 and c0 == 0 and sv == 0 and b0 in (0, 3, 6) and aband <= 1"}
@@ -152,7 +160,7 @@ class Script:
     + [{"S": 2, "mode": "all2", "_pre": f"p0 == {a} and d0 == 0 and c0 == 0"} for a in range(2)],
     example=dict(p0=1, p1=0, p2=1, p3=0, p4=0, p5=0, b0=2, sa=1, sv=0, rst=0, ping=0, aband=0, d0=0, c0=0, cz=0, fc=0),
     require=("C12:interleaved", "C12:all-complete", "C01:all-complete", "C02:all-complete", "C08:all-complete",
-             "C03:cancelled-outside-a-network-write", "C12:two-segments-in-flight", "C02:two-segments-in-flight",
+             "C03:cancelled-outside-a-network-write", "C12:answered-before-the-sender-ran-again", "C12:two-segments-in-flight", "C02:two-segments-in-flight",
              "C01:two-segments-in-flight", "C15:abandoned", "C12:abandoned"),
     timeout={"quick": 300, "thorough": 1800},
     symbolic="merge order of the per-stream frame sequences (up to 6 picks), batch boundary b0, SETTINGS(MAX_CONCURRENT_STREAMS) position and value from {1,2,3,100,1000} (incl. below the number in flight) or a SETTINGS frame that changes another parameter only, RST_STREAM on one stream, PING position, which caller abandons its response, one deviation from the FIFO schedule, cancellation of the first caller at a scheduler step",
@@ -209,8 +217,11 @@ def _streams(S: int, picks: list[int], b0: int, settings_at: int, settings_val: 
              abandon_idx: int, devs: list[tuple[int, int]], cancel_at: int = 0, fcut: int = 0) -> None:
     adv, cold = shard("adv", None), shard("cold", False)
     script = Script(S, picks, [b0], settings_at, settings_val, rst_idx, ping_at, warm=not cold, fcut=fcut)
+    script.eager = shard("mode", "") == "eager"
     if fcut:
         P.cover("two-segments-in-flight")
+    if script.eager:
+        P.cover("answered-before-the-sender-ran-again")
     su = Setup("h2prior", True, max_connections=1, h2_policy=script,
                h2_settings={h2.settings.SettingCodes.MAX_CONCURRENT_STREAMS: adv} if adv else None)
     sig = "h2s"
